@@ -11,7 +11,8 @@ use std::io::{Error, Read};
 
 // Parse a Number
 pub(crate) fn parse_number<R: Read>(scanner: &mut Scanner<R>) -> Result<Number, Error> {
-    let decimal = parse_decimal(scanner)?;
+    // Keep the digits as written, so the literal is rounded only once
+    let (decimal, _) = parse_decimal_str(scanner)?;
 
     let mut exponent: Option<String> = None;
     let mut unit: Option<&'static Unit> = None;
@@ -74,6 +75,11 @@ fn parse_unit<R: Read>(scanner: &mut Scanner<R>) -> Result<String, Error> {
 
 // Parse Decimal part of a number
 pub(crate) fn parse_decimal<R: Read>(scanner: &mut Scanner<R>) -> Result<f64, Error> {
+    parse_decimal_str(scanner).map(|(_, num)| num)
+}
+
+// Parse Decimal part of a number, returns its digits and its value
+fn parse_decimal_str<R: Read>(scanner: &mut Scanner<R>) -> Result<(String, f64), Error> {
     let mut id = Vec::new();
 
     while !scanner.is_eof && (scanner.is_digit() || scanner.is_any_of("_.-")) {
@@ -87,7 +93,7 @@ pub(crate) fn parse_decimal<R: Read>(scanner: &mut Scanner<R>) -> Result<f64, Er
     let str = String::from_utf8_lossy(&id).to_string();
 
     match str.parse::<f64>() {
-        Ok(num) => Ok(num),
+        Ok(num) => Ok((str, num)),
         Err(err) => {
             scanner.make_generic_err(&format!("Invalid decimal '{str}'. Parse error: {err}"))
         }
